@@ -39,34 +39,47 @@ HARNESS_BIN = "c06"
 NCASES = {"quick": 24000, "thorough": 400000}
 CASE_TIMEOUT = {"quick": 30, "thorough": 120}
 
-LEVEL_TEXT = ("Coq theorems for all inputs (coq/props/C06.v, 61 statements incl. 5 refutations of the open findings on their witnesses): the as-is model of FloatEncoding::encode (one text, the f32 and "
-              "f64 constants) returns the round-to-nearest-even bit pattern and the true error sign of mantissa*2^exponent for every "
+LEVEL_TEXT = ("Coq theorems for all inputs (coq/props/C06.v, 90 statements incl. 5 refutations of the open findings on their witnesses). Rounds 1-2: the as-is model of "
+              "FloatEncoding::encode (one text, the f32 and f64 constants) returns the round-to-nearest-even bit pattern and the true error sign of mantissa*2^exponent for every "
               "i32/i64 mantissa and every exponent (overflow, normal, subnormal, underflow branches); decode is its inverse on every "
-              "finite pattern; UBig/IBig::to_f32/to_f64 are correct for EVERY integer: the multi-word route (top 31/63 bits + sticky bit, then encode) and the "
-              "double-word route (native cast, error sign recovered by casting back, the saturation case of the all-ones double word) for any double-word size; "
-              "RBig/Relaxed::to_f32/to_f64 as a whole (exponent bookkeeping, quotient with two guard bits and a sticky bit, overflow and underflow shortcuts) return the "
-              "correctly rounded value of N/D with the true error sign for every numerator and positive denominator; FBig<R,2>::to_f32/to_f64 (normalise, round to 24/53 bits "
-              "under the mode, into_f32/f64_internal) return the value rounded under the mode with the truthful flag for every mode, significand and exponent whose result is "
-              "not below the smallest normal number (the open class), and for significands of at most 24/53 bits over the whole range; the rounding specification itself is proved equal to "
-              "Flocq's binary_normalize (mode_NE) + bits_of_b32/b64 with the error sign as Rcompare of the rounded against the exact real, for every dyadic m*2^e (all signs, "
-              "subnormals, carry, overflow), so encode and the integer conversions are stated against Flocq directly; TryFrom<f32/f64> for UBig/IBig succeeds exactly on the "
-              "integers with their value; TryFrom<FBig/Repr> for IBig, UBig and the primitive types (for every sound log2 estimate), From<UBig/IBig> for FBig and back, "
+              "finite pattern; UBig/IBig::to_f32/to_f64 are correct for EVERY integer (multi-word route: top 31/63 bits + sticky bit, then encode; double-word route: native cast, "
+              "error sign recovered by casting back, saturation of the all-ones double word) for any double-word size; "
+              "RBig/Relaxed::to_f32/to_f64 as a whole return the correctly rounded value of N/D with the true error sign for every numerator and positive denominator; "
+              "FBig<R,2>::to_f32/to_f64 return the value rounded under the mode with the truthful flag for every mode, significand and exponent whose result is "
+              "not below the smallest normal number, and for significands of at most 24/53 bits over the whole range; the rounding specification is proved equal to "
+              "Flocq's binary_normalize (mode_NE) + bits_of_b32/b64 with the error sign as Rcompare, for every dyadic m*2^e; TryFrom<f32/f64> for UBig/IBig succeeds exactly on the "
+              "integers; TryFrom<FBig/Repr> for IBig, UBig and the primitive types (for every sound log2 estimate), From<UBig/IBig> for FBig and back, "
               "TryFrom<RBig> for UBig/IBig and TryFrom<FBig> for RBig are exact or refused; the primitive <-> UBig/IBig range checks accept exactly the range of the type for any word "
-              "size and round-trip; the literals of encode/decode, to_f32/f64_nontrivial, to_f32/f64_small (shape), Repr::to_f32/to_f64 and into_f32/f64_internal are re-read from the "
-              "repository on every run and proved equal to the constants of the models. Every implementation answer of every conversion named by the property is judged by the extracted "
-              "specification on generated inputs.")
+              "size and round-trip. Round 3: RBig/Relaxed::to_float as a whole (digit counts, shift, quotient cut to exactly p digits, one rounding by round_ratio, convert_int, exponent "
+              "fix-up) is the correctly rounded p-digit float of N/D in normal form with the truthful flag for EVERY base, precision, mode, numerator and positive denominator, and its "
+              "convert_int step never rounds a second time; TryFrom<RBig/Relaxed> for f32/f64 (power-of-two test, top-bit window, trailing-zero stripping, MANTISSA_DIGITS test, encode) "
+              "returns Ok(pattern) exactly when the reduced fraction is a value of the format; TryFrom<FBig<R,2>/Repr<2>> for f32/f64 likewise for every mode over the WHOLE exponent range "
+              "(the open subnormal class never affects Exact-ness); TryFrom<f32/f64> for RBig/Relaxed (decode + reduce2: reduced fraction of the decoded value) and for Repr<2>/FBig<R,2> "
+              "(normal form, precision = bits of the mantissa); TryFrom<RBig> for the primitive integers; RBig::to_int; FBig::to_int (mode of the number) and Repr::to_int "
+              "(C10's as-is models meet C06's to_int statement: rounded value, Exact only if nothing lost, flag = true side of the error); FBig<R,2>::to_f32/to_f64 over the WHOLE range as "
+              "the code stands (round to 24/53 bits under the mode, then encode rounds to nearest even; flag of the first step unless encode was inexact, then NoOp) - the exact content "
+              "of the open class fbig_to_float_subnormal; FBig<R,B>::to_f32/to_f64 for B = 2^n (any n > 1, normal range) and for a base that is not a power of two with exponent "
+              "0..THRESHOLD_SMALL_EXP (no range condition; the debug assertion of into_f32/f64_internal cannot fire); to_f32_fast/to_f64_fast on the main branch return the correctly "
+              "rounded pattern of the approximate quotient, and that quotient is within (-1, +4.5) units of its own last place of the exact |N|/D for every input (a proved bound for "
+              "the 'bounded error' half of the contract). The literals of all these functions are re-read from the repository on every run (coq/gen/ConvParams.v, ConvParams2.v) and "
+              "the theorems on TryFrom<RBig> for f32/f64, to_f32_fast/to_f64_fast and the small-exponent route are stated over the regenerated numbers. Every implementation answer of "
+              "every conversion named by the property is judged by the extracted specification on generated inputs; every modelled op also reports model fidelity (asis=same).")
 LEVEL_NOTE = ("Trusted: Coq kernel, extraction + FastZ.v, zarith, harness, the contract of Rust's `as` casts between integers and floats "
-              "(uN as f32/f64 = round to nearest even, f as uN = truncate and saturate; modelled as cast_uint = the rounding specification and cast_back). The in-house "
-              "specification ieee_rne is no longer trusted for dyadic sources (proved = Flocq); for a rational source N/D that is not dyadic, and for the directed modes of "
-              "FBig::to_f32, ieee_round (round_rat_at / spec_round on Z, pattern monotone in the value) is the definition of 'correctly rounded'. Compared on every run but NOT proved: "
-              "FBig::to_f32/to_f64 for bases other than 2 and in the subnormal range, RBig::to_float (repaired in this round to round once; as-is model of the repaired code, 100% "
-              "fidelity on the run), RBig::to_int, FBig::to_int, TryFrom<FBig/RBig> for f32/f64 (through to_f32/to_f64 exactness), to_f32_fast/to_f64_fast (bounded error only). The models of "
-              "the FBig/RBig <-> integer TryFrom impls (Conv/ConvTryProofs.v) are proved but not extracted into the oracle: those ops are judged by the specification only. FBig -> f32/f64 for bases other than 2 goes through "
-              "convert_base: only the routes without logarithm are modelled (|exponent| <= 38 or power-of-two base); the logarithm "
-              "route is C08's. IBig arithmetic under the conversions is taken as Z (C01/C02/C09). The models are hand transcriptions tied to the code by the regenerated literals "
-              "(coq/gen/ConvParams.v, theorem C06_source_literals_tie) and by the correspondence run "
-              "(asis=same on every case), which includes integers whose discarded part holds a single bit at every distance from the truncation point.")
-TECHNIQUE = "Coq proof (as-is models of encode/decode/to_f32/to_f64/range checks = Z-level IEEE specification = Flocq binary_normalize) + extracted specification on a correspondence run"
+              "(uN as f32/f64 = round to nearest even, f as uN = truncate and saturate; modelled as cast_uint = the rounding specification and cast_back), f32/f64::MANTISSA_DIGITS = 24/53 "
+              "(a constant of core, not of the repository). The in-house "
+              "specification ieee_rne is not trusted for dyadic sources (proved = Flocq); for a rational source N/D that is not dyadic, and for the directed modes of "
+              "FBig::to_f32, ieee_round (round_rat_at / spec_round on Z, pattern monotone in the value) is the definition of 'correctly rounded'; rat_to_fbig_spec (round_rat_at at the exponent "
+              "rat_exp - p + 1) is the definition of 'correctly rounded p-digit float'. Compared on every run but NOT proved: "
+              "FBig::to_f32/to_f64 for a base that is not a power of two with a NEGATIVE exponent (open class fbig_to_float_division_route) and below the smallest normal number (open class "
+              "fbig_to_float_subnormal; as-is behaviour proved, specification not met), the distance in PATTERNS of to_f32_fast/to_f64_fast from the correctly rounded value (contract +-1, observed "
+              "+-2: open class; proved: the quotient handed to encode is less than 4.5 of its units off), TryFrom<UBig/IBig> for f32/f64 (as-is model compared; open class int_to_float_refuses_representable pinned by the repository's tests), the logarithm route "
+              "of convert_base (|exponent| > 38, C08). trailing_zeros + shift is modelled as normalize 2 (odd part, count); is_power_of_two as 'odd part = 1'. "
+              "The kind of refusal (OutOfBounds / LossOfPrecision) of TryFrom<FBig> for primitive integers with a negative exponent depends on the f32 log2 estimate (C12): fidelity there is "
+              "counted on 'both refuse'. IBig arithmetic under the conversions is taken as Z (C01/C02/C09); IBig >> is floor (C09) - the model of to_f32_fast was corrected in round 3 "
+              "to shift a negative numerator before taking its magnitude. The models are hand transcriptions tied to the code by the regenerated literals "
+              "(theorems C06_source_literals_tie, C06_source_literals_tie_r3, C06_*_gen*) and by the correspondence run (asis=same on every case), whose generators reach every branch "
+              "threshold at -1/0/+1.")
+TECHNIQUE = "Coq proof (as-is models of encode/decode/to_f32/to_f64/to_float/to_int/TryFrom glue/range checks = Z-level IEEE and rounding specifications = Flocq binary_normalize; models at literals regenerated from the sources) + extracted specification and as-is models on a correspondence run"
 RULE = ("cases = conversion x source values: every primitive type at MIN/MAX and one beyond on both sides; integers 2^k+-{0,1,2} for k at "
         "8,16,24,25,32,53,54,64,65,128,129,1024 and the f32/f64 overflow thresholds (2^128-2^104, 2^128-2^103, 2^1024-2^971, 2^1024-2^970) "
         "+-1; integers made of a 24/53-bit head, a tie / near-tie / quarter pattern below it and up to 200 further bits; integers cut 30..32 / 62..64 bits (the truncation "
@@ -76,12 +89,15 @@ RULE = ("cases = conversion x source values: every primitive type at MIN/MAX and
         "IEEE pattern (+-0, smallest/largest subnormal, smallest normal, MAX, +-inf, NaN, integers, halves); encode over the whole "
         "i32/i64 x exponent range around overflow, the normal/subnormal border and underflow; rationals whose quotient has 24..27 / "
         "53..56 bits with exact ties and near-ties, scaled to every exponent class including subnormal and overflow; floats of base 2, "
-        "3, 8, 10, 16, 36 with 1..60-digit significands. non-trivial = the oracle evaluated the Coq specification on the case (all "
+        "3, 8, 10, 16, 36 with 1..60-digit significands; reduced fractions man*2^e with 1..MANTISSA_DIGITS+2-bit odd mantissas whose top bit sits at the "
+        "TryFrom<RBig> window ends -1/0/+1 (also times 3, 5, 7 in the denominator); numerators longer than the 48/106 bits to_f32_fast/to_f64_fast keep, negative "
+        "ones with a dropped part of zero / one bit / all ones (the floor shift rounds them away from zero). non-trivial = the oracle evaluated the Coq specification on the case (all "
         "cases); the histogram cls= separates exact / rounded-up / rounded-down / refused answers.")
 EXPLANATION = ("Verdicts come from ConvSpec.v: ieee_round (N/D rounded at the exponent of the last place the format offers, pattern "
                "monotone in the value, overflow to infinity, error sign by exact comparison), decode_spec, to_prim_spec, "
                "float_to_int_spec, rat_to_int_spec, exact_to_float (a lossless conversion exists iff rounding is exact), "
-               "rat_to_fbig_spec, int_round_spec. A refusal may carry either error kind.")
+               "rat_to_fbig_spec, int_round_spec. A refusal may carry either error kind. The as-is models (ConvModel.v, ConvModel2.v, ConvTryProofs.v, Float/RoundOpsModel.v) "
+               "only give the fidelity column and decide whether a wrong answer inside an open class is the predicted one.")
 TRUSTED_BASE = [
     "Coq 8.16.1 kernel",
     "extraction: ExtrOcamlBasic + ExtrOcamlZBigInt + coq/extract/FastZ.v directives; zarith 1.12; oracle/driver_c06.ml (fractions of the case operands, reduction by gcd)",
@@ -89,6 +105,9 @@ TRUSTED_BASE = [
     "Rust's primitive casts: `uN as f32/f64` rounds to nearest even, `f as uN` truncates and saturates (modelled as cast_uint / cast_back; what the code does with them is proved)",
     "Flocq 's IEEE754.Binary / Bits (binary_normalize, bits_of_b32/b64) as the reference meaning of the rounding specification; the standard library's real-number axioms (ClassicalDedekindReals.sig_not_dec, sig_forall_dec, functional_extensionality_dep, Classical_Prop.classic) enter through it",
     "IBig shifts, division and bit_len under the conversions behave as on Z (C01, C02, C09); round tables of float/src/round.rs regenerated by tools/translate.py",
+    "tools/translate_c06_r3.py (regular expressions over rational/src/convert.rs, float/src/convert.rs, integer/src/convert.rs -> coq/gen/ConvParams2.v at plug-in import; reports unparsed and keeps the last good copy when the source is rewritten)",
+    "the as-is models and proofs of FBig::to_int / Repr::to_int are C10's (Float/RoundOpsModel.v, RoundOpsProof.v); C06 proves their specification equal to its own to_int statement",
+    "f32::MANTISSA_DIGITS = 24, f64::MANTISSA_DIGITS = 53 (core)",
 ]
 ASSUMPTIONS = [
     "64-bit words (DoubleWord = u128) in the harness build; the word size is a parameter of the models",
@@ -365,7 +384,33 @@ def gen_cases(rng, tier, n):
         elif op == "dec":
             out.append("dec %s %x" % (f, gen_bits(rng, f)))
         elif op in ("rtof", "rfast", "r2f"):
-            if op == "r2f" and rng.chance(1, 2):
+            if op == "rfast" and rng.chance(1, 3):
+                # numerator longer than the 48/106 bits kept, with an engineered dropped part (none, one bit, all ones):
+                # the shift of a negative numerator rounds away from zero and can create or destroy a tie of the quotient
+                p, emin, eb = FMT[f]
+                keep = 2 * p
+                drop = rng.choice([1, 2, 3, 17, 33, 64, 65, 100])
+                head = rng.choice([rng.bits(keep) | (1 << (keep - 1)), (1 << keep) - 1, 1 << (keep - 1), (rng.bits(p) | (1 << (p - 1))) << p,
+                                   ((rng.bits(p) | (1 << (p - 1))) << p) - 1, ((rng.bits(p) | (1 << (p - 1))) << p) | (1 << (p - 1))])
+                tail = rng.choice([0, 1, (1 << drop) - 1, 1 << (drop - 1), rng.bits(drop)])
+                nn = (head << drop) | tail
+                dd = rng.choice([1 << rng.below(90), (1 << (p - 1)) | rng.bits(p - 1), ((1 << (p - 1)) | rng.bits(p - 1)) << rng.below(40),
+                                 (((1 << (p - 1)) | rng.bits(p - 1)) << 20) | rng.bits(20), 3, 7, 10 ** rng.below(20)]) or 1
+                nn = -nn if rng.chance(2, 3) else nn
+            elif op == "r2f" and rng.chance(1, 3):
+                # the window of TryFrom<RBig>: top bit at ub+1 / ub / lb / lb-1, mantissa of MANTISSA_DIGITS / one more bits,
+                # numerators with trailing zeros (man << e) and power-of-two denominators
+                p, emin, eb = FMT[f]
+                ub = emin + p - 1 + (1 << eb) - 2
+                bits = rng.choice([1, 2, p - 1, p, p, p + 1, p + 2, rng.range(1, p + 3)])
+                man = (rng.bits(bits) | (1 << (bits - 1)) | 1) if bits > 1 else 1
+                top = rng.choice([ub + 1, ub, ub - 1, ub + 2, emin + 1, emin, emin - 1, emin - 2, emin + p, emin + p - 1, 0, 1, rng.range(emin - 3, ub + 3)])
+                e = top - bits
+                nn, dd = (man << e, 1) if e >= 0 else (man, 1 << -e)
+                if rng.chance(1, 6):
+                    dd *= rng.choice([3, 5, 7])
+                nn = -nn if rng.chance(1, 2) else nn
+            elif op == "r2f" and rng.chance(1, 2):
                 p, emin, eb = FMT[f]
                 nn = (rng.bits(rng.range(1, p + 2)) | 1) * rng.choice([1, 1, 3])
                 e = rng.range(emin - 3, emin + 2 * p) if rng.chance(1, 2) else rng.range(-80, 1030)
